@@ -79,7 +79,8 @@ def _run(n, two, broken, exc):
     for i in range(n):
         parts = []
         for j in range(2 if two[i] else 1):
-            tag = _badtag(exc[i]) if broken[2 * i + j] else "ok"
+            # the two parts of an entry fail with DIFFERENT exception classes: the reported error is the first failing part's
+            tag = _badtag((exc[i] + j) % 4) if broken[2 * i + j] else "ok"
             parts.append(tag + ":" + NAMES[i] + ":" + "01"[j])
         behaviors[NAMES[i]] = parts
     saved = (P.Lark, P.Pool, P.tqdm, P.Conf.get_path)
@@ -104,7 +105,7 @@ def _entry_ok(name, parts, e, exc_idx):
     if e.name != name or list(e.behaviors) != list(parts):
         return False
     if bad:
-        return e.asts == [] and e.exception is not None and e.exception.name == _excname(exc_idx)
+        return e.asts == [] and e.exception is not None and e.exception.name == _excname(int(bad[0][3]))
     return e.exception is None and e.asts == [("tree", p) for p in parts]
 
 
